@@ -55,8 +55,8 @@ Theorem forward_euler_unique Q p times levels info levels' :
   length levels' = length times ->
   nth 0 levels' [] = fic P form p (nth 0 times 0) ->
   (forall k, (S k < length times)%nat ->
-     nth (S k) levels' [] = euler_fwd (fA P form p (nth k times 0)) (fb P form p (nth k times 0)) (nth k levels' [])
-                                      (nth (S k) times 0 - nth k times 0)) ->
+     nth (S k) levels' [] = euler_fwd (fA P form p (nth k times 0)) (fbn P form p (nth k times 0) (length (nth 0 levels' [])))
+                                      (nth k levels' []) (nth (S k) times 0 - nth k times 0)) ->
   levels' = levels.
 Proof.
   intros H HL H0 Hk.
@@ -64,7 +64,7 @@ Proof.
   assert (Hall : forall k, (k < length times)%nat -> nth k levels' [] = nth k levels []).
   { induction k as [|k IH]; intros Hlt.
     - rewrite H0, E0. reflexivity.
-    - rewrite (Hk k Hlt), (Ek k Hlt). rewrite IH by lia. reflexivity. }
+    - rewrite (Hk k Hlt). destruct (Ek k Hlt) as [_ Ek']. rewrite Ek'. rewrite IH by lia. rewrite H0, E0. reflexivity. }
   apply (nth_ext _ _ [] []); [transitivity (length times); [exact HL | symmetry; exact L]|].
   intros k Hlt. apply Hall. apply (Nat.lt_le_trans _ _ _ Hlt). apply Nat.eq_le_incl. exact HL.
 Qed.
@@ -74,8 +74,8 @@ Variable Pd : Type.
 Variable formd : Pd -> Qc -> qm * qv * qv.
 
 Lemma fe_loop_difference p1 p2 pd :
-  (forall t, fA P form p1 t = fA P form p2 t /\ fA Pd formd pd t = fA P form p1 t /\
-             fb Pd formd pd t = qvsub (fb P form p1 t) (fb P form p2 t)) ->
+  (forall t n, fA P form p1 t = fA P form p2 t /\ fA Pd formd pd t = fA P form p1 t /\
+             fbn Pd formd pd t n = qvsub (fbn P form p1 t n) (fbn P form p2 t n)) ->
   forall rest t u1 u2 l1 l2,
   length u1 = length u2 ->
   fe_loop P form p1 t rest u1 = Ok l1 -> fe_loop P form p2 t rest u2 = Ok l2 ->
@@ -83,26 +83,30 @@ Lemma fe_loop_difference p1 p2 pd :
 Proof.
   intros Hf. induction rest as [|t' rest IH]; intros t u1 u2 l1 l2 HL H1 H2; simpl in *.
   - inversion H1; inversion H2; subst. reflexivity.
-  - destruct (Hf t) as [HA [HAd Hbd]]. unfold fA, fb in HA, HAd, Hbd.
-    destruct (form p1 t) as [[A1 b1] c1]. destruct (form p2 t) as [[A2 b2] c2]. destruct (formd pd t) as [[Ad bd] cd].
-    cbn [fst snd] in HA, HAd, Hbd. subst A2 Ad bd.
+  - destruct (Hf t (length u1)) as [HA [HAd Hbd]]. unfold fbn, fA, fb in HA, HAd, Hbd.
+    destruct (form p1 t) as [[A1 b10] c1]. destruct (form p2 t) as [[A2 b20] c2]. destruct (formd pd t) as [[Ad bd0] cd].
+    cbn [fst snd] in HA, HAd, Hbd. subst A2 Ad. cbn zeta in *.
+    rewrite (qvsub_length u1 u2 HL). rewrite Hbd. rewrite <- HL in *.
+    set (b1 := bc (length u1) b10) in *. set (b2 := bc (length u1) b20) in *.
     destruct (wf_sys (length u1) A1 b1) eqn:W1; [|discriminate].
-    destruct (wf_sys (length u2) A1 b2) eqn:W2; [|discriminate].
+    destruct (wf_sys (length u1) A1 b2) eqn:W2; [|discriminate].
     destruct (fe_loop P form p1 t' rest (fe_step A1 b1 u1 (t' - t))) as [l1'|] eqn:E1; [|discriminate].
     destruct (fe_loop P form p2 t' rest (fe_step A1 b2 u2 (t' - t))) as [l2'|] eqn:E2; [|discriminate].
     inversion H1; inversion H2; subst. clear H1 H2.
-    assert (Wd : wf_sys (length (qvsub u1 u2)) A1 (qvsub b1 b2) = true).
-    { rewrite qvsub_length by exact HL.
+    assert (Wd : wf_sys (length u1) A1 (qvsub b1 b2) = true).
+    {
       pose proof (wf_sys_spec _ _ _ W1) as [Ha [Hw Hb1]]. pose proof (wf_sys_spec _ _ _ W2) as [_ [_ Hb2]].
       unfold wf_sys. apply andb_true_iff. split.
       - unfold wf_sys in W1. apply andb_true_iff in W1 as [W _]. exact W.
       - apply Nat.eqb_eq. rewrite qvsub_length; lia. }
     rewrite Wd.
-    destruct (fe_step_spec A1 b1 u1 (t' - t) W1) as [S1 L1]. destruct (fe_step_spec A1 b2 u2 (t' - t) W2) as [S2 L2].
-    destruct (fe_step_spec A1 (qvsub b1 b2) (qvsub u1 u2) (t' - t) Wd) as [Sd Ld].
+    assert (W2' : wf_sys (length u2) A1 b2 = true) by (rewrite <- HL; exact W2).
+    assert (Wd' : wf_sys (length (qvsub u1 u2)) A1 (qvsub b1 b2) = true) by (rewrite qvsub_length by exact HL; exact Wd).
+    destruct (fe_step_spec A1 b1 u1 (t' - t) W1) as [S1 L1]. destruct (fe_step_spec A1 b2 u2 (t' - t) W2') as [S2 L2].
+    destruct (fe_step_spec A1 (qvsub b1 b2) (qvsub u1 u2) (t' - t) Wd') as [Sd Ld].
     assert (Estep : fe_step A1 (qvsub b1 b2) (qvsub u1 u2) (t' - t)
                     = qvsub (fe_step A1 b1 u1 (t' - t)) (fe_step A1 b2 u2 (t' - t))).
-    { rewrite Sd, S1, S2. exact (euler_fwd_sub A1 b1 b2 u1 u2 (t' - t) W1 W2 HL). }
+    { rewrite Sd, S1, S2. exact (euler_fwd_sub A1 b1 b2 u1 u2 (t' - t) W1 W2' HL). }
     rewrite Estep.
     rewrite (IH t' _ _ l1' l2'); [reflexivity | lia | exact E1 | exact E2].
 Qed.
@@ -110,8 +114,8 @@ Qed.
 (* if the operator does not depend on the parameter, the difference of the forward-Euler solutions for two parameters
    is the forward-Euler solution of the problem whose source and initial condition are the differences *)
 Theorem forward_euler_difference Q p1 p2 pd times l1 l2 i1 i2 :
-  (forall t, fA P form p1 t = fA P form p2 t /\ fA Pd formd pd t = fA P form p1 t /\
-             fb Pd formd pd t = qvsub (fb P form p1 t) (fb P form p2 t) /\
+  (forall t n, fA P form p1 t = fA P form p2 t /\ fA Pd formd pd t = fA P form p1 t /\
+             fbn Pd formd pd t n = qvsub (fbn P form p1 t n) (fbn P form p2 t n) /\
              fic Pd formd pd t = qvsub (fic P form p1 t) (fic P form p2 t)) ->
   length (fic P form p1 (nth 0 times 0)) = length (fic P form p2 (nth 0 times 0)) ->
   td_solve P I solver form Q MFwd (Some p1) times = Ok (l1, i1) ->
@@ -119,16 +123,211 @@ Theorem forward_euler_difference Q p1 p2 pd times l1 l2 i1 i2 :
   td_solve Pd I solver formd Q MFwd (Some pd) times = Ok (map2 qvsub l1 l2, None).
 Proof.
   intros Hf HL H1 H2. unfold td_solve in *. destruct times as [|t0 rest]; [discriminate|].
-  destruct (Hf t0) as [_ [_ [_ Hic]]]. unfold fic in Hic, HL. cbn [nth] in HL.
+  destruct (Hf t0 0%nat) as [_ [_ [_ Hic]]]. unfold fic in Hic, HL. cbn [nth] in HL.
   destruct (form p1 t0) as [[A1 b1] c1] eqn:F1. destruct (form p2 t0) as [[A2 b2] c2] eqn:F2.
   destruct (formd pd t0) as [[Ad bd] cd] eqn:Fd. cbn [snd] in Hic, HL. subst cd.
   cbn [effective_method] in *.
   destruct (fe_loop P form p1 t0 rest c1) as [ls1|] eqn:E1; [|discriminate].
   destruct (fe_loop P form p2 t0 rest c2) as [ls2|] eqn:E2; [|discriminate].
   inversion H1; inversion H2; subst. clear H1 H2.
-  assert (Hf' : forall t, fA P form p1 t = fA P form p2 t /\ fA Pd formd pd t = fA P form p1 t /\
-                          fb Pd formd pd t = qvsub (fb P form p1 t) (fb P form p2 t)).
-  { intros t. destruct (Hf t) as [a [b [c _]]]. auto. }
+  assert (Hf' : forall t n, fA P form p1 t = fA P form p2 t /\ fA Pd formd pd t = fA P form p1 t /\
+                          fbn Pd formd pd t n = qvsub (fbn P form p1 t n) (fbn P form p2 t n)).
+  { intros t n. destruct (Hf t n) as [a [b [c _]]]. auto. }
   rewrite (fe_loop_difference p1 p2 pd Hf' rest t0 c1 c2 ls1 ls2 HL E1 E2). reflexivity.
 Qed.
 End Lin.
+
+(* ================= backward Euler: uniqueness and linearity, given invertible step operators ================= *)
+(* the implicit step operator  x |-> x - dt A x  (what I - dt A does to a vector) *)
+Definition imp_op (A : qm) (dt : Qc) (x : qv) : qv := qvsub x (qvscale dt (qmatvec A x)).
+(* invertibility of I - dt A, as far as it is needed: injective on vectors of n nodes *)
+Definition inj_on (n : nat) (A : qm) (dt : Qc) : Prop :=
+  forall x y, length x = n -> length y = n -> imp_op A dt x = imp_op A dt y -> x = y.
+
+Lemma imp_op_length A dt x : length A = length x -> length (imp_op A dt x) = length x.
+Proof. intros H. unfold imp_op. rewrite qvsub_length; [reflexivity|]. rewrite qvscale_length, qmatvec_length. symmetry; exact H. Qed.
+
+Lemma imp_op_sub n A dt x y : wf_mat n A -> length A = n -> length x = n -> length y = n ->
+  imp_op A dt (qvsub x y) = qvsub (imp_op A dt x) (imp_op A dt y).
+Proof.
+  intros HW HA Hx Hy. unfold imp_op. rewrite (qmatvec_vsub A x y n HW Hx Hy).
+  assert (L1 : length (qmatvec A x) = n) by (rewrite qmatvec_length; exact HA).
+  assert (L2 : length (qmatvec A y) = n) by (rewrite qmatvec_length; exact HA).
+  assert (L3 : length (qvsub x y) = n) by (rewrite qvsub_length; lia).
+  assert (L4 : length (qvsub (qmatvec A x) (qmatvec A y)) = n) by (rewrite qvsub_length; lia).
+  assert (L5 : length (qvscale dt (qmatvec A x)) = n) by (rewrite qvscale_length; exact L1).
+  assert (L6 : length (qvscale dt (qmatvec A y)) = n) by (rewrite qvscale_length; exact L2).
+  assert (L7 : length (qvscale dt (qvsub (qmatvec A x) (qmatvec A y))) = n) by (rewrite qvscale_length; exact L4).
+  assert (L8 : length (qvsub x (qvscale dt (qmatvec A x))) = n) by (rewrite qvsub_length; lia).
+  assert (L9 : length (qvsub y (qvscale dt (qmatvec A y))) = n) by (rewrite qvsub_length; lia).
+  apply qv_ext.
+  - rewrite (qvsub_length (qvsub x y)) by lia. rewrite (qvsub_length (qvsub x _)) by lia. lia.
+  - intros i.
+    rewrite (nth_qvsub (qvsub x y)) by lia.
+    rewrite (nth_qvsub (qvsub x _)) by lia.
+    rewrite (nth_qvsub x (qvscale _ _)) by lia.
+    rewrite (nth_qvsub y (qvscale _ _)) by lia.
+    rewrite !nth_qvscale. rewrite (nth_qvsub x y) by lia. rewrite (nth_qvsub (qmatvec A x)) by lia. ring.
+Qed.
+
+Lemma rhs_sub n u1 u2 b1 b2 dt : length u1 = n -> length u2 = n -> length b1 = n -> length b2 = n ->
+  qvadd (qvsub u1 u2) (qvscale dt (qvsub b1 b2)) = qvsub (qvadd u1 (qvscale dt b1)) (qvadd u2 (qvscale dt b2)).
+Proof.
+  intros H1 H2 H3 H4.
+  assert (M1 : length (qvsub u1 u2) = n) by (rewrite qvsub_length; lia).
+  assert (M2 : length (qvsub b1 b2) = n) by (rewrite qvsub_length; lia).
+  assert (M3 : length (qvscale dt (qvsub b1 b2)) = n) by (rewrite qvscale_length; exact M2).
+  assert (M4 : length (qvscale dt b1) = n) by (rewrite qvscale_length; exact H3).
+  assert (M5 : length (qvscale dt b2) = n) by (rewrite qvscale_length; exact H4).
+  assert (M6 : length (qvadd u1 (qvscale dt b1)) = n) by (rewrite qvadd_length; lia).
+  assert (M7 : length (qvadd u2 (qvscale dt b2)) = n) by (rewrite qvadd_length; lia).
+  apply qv_ext.
+  - rewrite (qvadd_length (qvsub u1 u2)) by lia. rewrite (qvsub_length (qvadd u1 _)) by lia. lia.
+  - intros i.
+    rewrite (nth_qvadd (qvsub u1 u2)) by lia.
+    rewrite (nth_qvsub (qvadd u1 _)) by lia.
+    rewrite (nth_qvadd u1) by lia. rewrite (nth_qvadd u2) by lia.
+    rewrite !nth_qvscale. rewrite (nth_qvsub u1 u2) by lia. rewrite (nth_qvsub b1 b2) by lia. ring.
+Qed.
+
+Lemma nth_map2_qvsub (l1 l2 : list qv) k : length l1 = length l2 -> (k < length l1)%nat ->
+  nth k (map2 qvsub l1 l2) [] = qvsub (nth k l1 []) (nth k l2 []).
+Proof.
+  revert l2 k; induction l1 as [|a l1 IH]; intros [|b l2] k HL Hk; simpl in *; try lia.
+  destruct k; [reflexivity | apply IH; lia].
+Qed.
+Lemma map2_length {A B C} (f : A -> B -> C) l1 l2 : length l1 = length l2 -> length (map2 f l1 l2) = length l1.
+Proof. revert l2; induction l1 as [|a l1 IH]; intros [|b l2] H; simpl in *; try lia. f_equal. apply IH. lia. Qed.
+
+Section BELin.
+Variable P : Type.
+Variable I : Type.
+Variable solver : nat -> qm -> qv -> sret I.
+Variable form : P -> Qc -> qm * qv * qv.
+
+(* every step operator of the run is injective on vectors of n nodes *)
+Definition be_invertible (p : P) (times : qv) (n : nat) : Prop :=
+  forall k, (S k < length times)%nat -> inj_on n (fA P form p (nth (S k) times 0)) (nth (S k) times 0 - nth k times 0).
+
+(* uniqueness: when the solver's answers obey its law on the calls of the run and the step operators are invertible,
+   the stored levels are THE sequence satisfying  u_{k+1} - dt A(p,t_{k+1}) u_{k+1} = u_k + dt b(p,t_{k+1})  from the
+   initial condition *)
+Theorem backward_euler_unique Q p times levels info levels' :
+  td_solve P I solver form Q MBwd (Some p) times = Ok (levels, info) ->
+  be_law_on_calls P I solver form p times levels ->
+  be_invertible p times (length (nth 0 levels [])) ->
+  length levels' = length times ->
+  nth 0 levels' [] = fic P form p (nth 0 times 0) ->
+  (forall k, (S k < length times)%nat ->
+     length (nth (S k) levels' []) = length (nth 0 levels []) /\
+     imp_op (fA P form p (nth (S k) times 0)) (nth (S k) times 0 - nth k times 0) (nth (S k) levels' [])
+       = qvadd (nth k levels' []) (qvscale (nth (S k) times 0 - nth k times 0)
+                                          (fbn P form p (nth (S k) times 0) (length (nth 0 levels []))))) ->
+  levels' = levels.
+Proof.
+  intros H Hlaw Hinj HL H0 Hk.
+  destruct (backward_euler P I solver form Q p times levels info H) as [L [E0 Ek]].
+  assert (Hall : forall k, (k < length times)%nat -> nth k levels' [] = nth k levels []).
+  { induction k as [|k IH]; intros Hlt.
+    - rewrite H0, E0. reflexivity.
+    - specialize (Ek k Hlt). cbn zeta in Ek. destruct Ek as [_ [Ln [_ [_ [_ Hrec]]]]].
+      destruct (Hk k Hlt) as [Ln' Hrec'].
+      apply (Hinj k Hlt); [exact Ln' | exact Ln |].
+      unfold imp_op in *. rewrite Hrec'. rewrite (Hrec (Hlaw k Hlt)). rewrite IH by lia. reflexivity. }
+  apply (nth_ext _ _ [] []); [transitivity (length times); [exact HL | symmetry; exact L]|].
+  intros k Hlt. apply Hall. apply (Nat.lt_le_trans _ _ _ Hlt). apply Nat.eq_le_incl. exact HL.
+Qed.
+
+End BELin.
+
+Definition backward_euler_unique_gen := backward_euler_unique.
+
+Section BELin2.
+Variable P : Type.
+Variable I : Type.
+Variable solver : nat -> qm -> qv -> sret I.
+Variable form : P -> Qc -> qm * qv * qv.
+
+(* linearity in the data: with a parameter-independent operator, invertible step operators and solvers obeying their
+   law on the calls made, the backward-Euler solution for the difference of sources and initial conditions is the
+   difference of the solutions, level by level *)
+Variable Pd : Type.
+Variable formd : Pd -> Qc -> qm * qv * qv.
+Variable solver1 solver2 : nat -> qm -> qv -> sret I.
+
+Theorem backward_euler_difference Q p1 p2 pd times l1 l2 ld i1 i2 id :
+  (forall t n, fA P form p1 t = fA P form p2 t /\ fA Pd formd pd t = fA P form p1 t /\
+               fbn Pd formd pd t n = qvsub (fbn P form p1 t n) (fbn P form p2 t n) /\
+               fic Pd formd pd t = qvsub (fic P form p1 t) (fic P form p2 t)) ->
+  length (fic P form p1 (nth 0 times 0)) = length (fic P form p2 (nth 0 times 0)) ->
+  td_solve P I solver1 form Q MBwd (Some p1) times = Ok (l1, i1) ->
+  td_solve P I solver2 form Q MBwd (Some p2) times = Ok (l2, i2) ->
+  td_solve Pd I solver formd Q MBwd (Some pd) times = Ok (ld, id) ->
+  be_law_on_calls P I solver1 form p1 times l1 -> be_law_on_calls P I solver2 form p2 times l2 ->
+  be_law_on_calls Pd I solver formd pd times ld ->
+  (forall k, (S k < length times)%nat ->
+     inj_on (length (fic P form p1 (nth 0 times 0))) (fA P form p1 (nth (S k) times 0)) (nth (S k) times 0 - nth k times 0)) ->
+  ld = map2 qvsub l1 l2.
+Proof.
+  intros Hf HL0 H1 H2 Hd W1 W2 Wd Hinj.
+  destruct (backward_euler P I solver1 form Q p1 times l1 i1 H1) as [L1 [E1 K1]].
+  destruct (backward_euler P I solver2 form Q p2 times l2 i2 H2) as [L2 [E2 K2]].
+  destruct (backward_euler Pd I solver formd Q pd times ld id Hd) as [Ld [Ed Kd]].
+  assert (L12 : length l1 = length l2) by (transitivity (length times); [exact L1 | symmetry; exact L2]).
+  destruct (Hf (nth 0 times 0) 0%nat) as [_ [_ [_ Hic]]].
+  assert (N1 : length (nth 0 l1 []) = length (fic P form p1 (nth 0 times 0))) by (rewrite E1; reflexivity).
+  assert (N2 : length (nth 0 l2 []) = length (fic P form p1 (nth 0 times 0))) by (rewrite E2; symmetry; exact HL0).
+  assert (Nd : length (nth 0 ld []) = length (fic P form p1 (nth 0 times 0))).
+  { rewrite Ed, Hic. rewrite qvsub_length; [reflexivity | exact HL0]. }
+  symmetry.
+  apply (backward_euler_unique_gen Pd I solver formd Q pd times ld id (map2 qvsub l1 l2) Hd Wd).
+  - intros k Hk. rewrite Nd. destruct (Hf (nth (S k) times 0) 0%nat) as [_ [HAd _]]. rewrite HAd. apply Hinj. exact Hk.
+  - rewrite map2_length by exact L12. exact L1.
+  - destruct times as [|t0 rest]; [unfold td_solve in H1; discriminate H1|].
+    rewrite nth_map2_qvsub; [| exact L12 | rewrite L1; simpl; lia]. rewrite E1, E2, Hic. reflexivity.
+  - intros k Hk.
+    rewrite !nth_map2_qvsub; try exact L12; try (rewrite L1; lia).
+    specialize (K1 k Hk). specialize (K2 k Hk). cbn zeta in K1, K2.
+    destruct K1 as [A1 [B1 [C1 [_ [_ R1]]]]]. destruct K2 as [A2 [B2 [C2 [_ [_ R2]]]]].
+    rewrite N1 in *. rewrite N2 in *. rewrite Nd.
+    set (n := length (fic P form p1 (nth 0 times 0))) in *.
+    destruct (Hf (nth (S k) times 0) n) as [HA [HAd [Hb _]]].
+    pose proof (wf_sys_spec _ _ _ C1) as [HlA [HwA Hb1]]. pose proof (wf_sys_spec _ _ _ C2) as [_ [_ Hb2]].
+    split; [rewrite qvsub_length; lia|].
+    rewrite HAd. rewrite (imp_op_sub n _ _ _ _ HwA HlA B1 B2).
+    unfold imp_op. rewrite (R1 (W1 k Hk)). rewrite <- HA in R2. rewrite (R2 (W2 k Hk)).
+    rewrite Hb. symmetry. apply (rhs_sub n); assumption.
+Qed.
+End BELin2.
+
+(* ================= non-vacuity of the backward-Euler hypotheses ================= *)
+Lemma inj_on_scalar (a dt : Qc) : 1 - dt * a <> 0 -> inj_on 1 [[a]] dt.
+Proof.
+  intros Hne x y Hx Hy H.
+  destruct x as [|x1 [|? ?]]; simpl in Hx; try lia. destruct y as [|y1 [|? ?]]; simpl in Hy; try lia.
+  unfold imp_op, qvsub, qvscale, qmatvec, matvec, vscale in H. cbn [map dot vsub] in H.
+  apply (f_equal (fun l : list Qc => nth 0 l 0)) in H. cbn [nth] in H.
+  assert (E : (x1 - y1) * (1 - dt * a) = 0).
+  { transitivity ((x1 - dt * (a * x1 + 0)) - (y1 - dt * (a * y1 + 0))); [ring | rewrite H; ring]. }
+  apply Qcmult_integral in E. destruct E as [E|E]; [|contradiction].
+  f_equal. transitivity (x1 - y1 + y1); [ring | rewrite E; ring].
+Qed.
+
+Definition ex1_form (p : qv) (t : Qc) : qm * qv * qv := ([[qc (-2 # 1)]], [t], p).
+Definition ex1_solver (k : nat) (A : qm) (b : qv) : sret Z :=
+  match A, b with [[m]], [r] => SPlain [(r / m)%Qc] | _, _ => SPlain [] end.
+
+Example ex_be_hypotheses :
+  let times := [qc (0 # 1); qc (1 # 4); qc (3 # 4)] in
+  let p := [qc (3 # 1)] in
+  exists levels, td_solve qv Z ex1_solver ex1_form quirks_fixed MBwd (Some p) times = Ok (levels, None) /\
+    be_law_on_calls qv Z ex1_solver ex1_form p times levels /\
+    be_invertible qv ex1_form p times (length (nth 0 levels [])).
+Proof.
+  cbn zeta. eexists. split; [vm_compute; reflexivity|]. split.
+  - intros k Hk. cbn zeta. apply (proj1 (list_eqb_spec qc_eqb qc_eqb_eq _ _)).
+    destruct k as [|[|k]]; [vm_compute; reflexivity | vm_compute; reflexivity | simpl in Hk; lia].
+  - intros k Hk. change (length (nth 0 _ [])) with 1%nat. unfold fA, ex1_form. cbn [fst].
+    apply inj_on_scalar. destruct k as [|[|k]]; [| | simpl in Hk; lia];
+      intro H; apply (f_equal this) in H; vm_compute in H; discriminate.
+Qed.
